@@ -330,8 +330,14 @@ Section Oracle.
      Close closed the backing itself (OpenReadOnly: the mmap).  A second Close is a no-op returning nil. *)
   Record rosess := mkss { ss_st : rostate; ss_closed : bool; ss_mmap : bool }.
 
-  Inductive roop := RHas (key : bytes) | RGet (key : bytes) | RGetSize (key : bytes) | RKeys | RRoots | RClose.
-  Inductive roans := AOut (o : out) | AKeys (k : keys_out).
+  (* RPut / RPutMany / RDelete: the Blockstore interface's write methods, which a ReadOnly refuses with
+     errReadOnly whatever its state; RHashOnRead: a no-op; RIndexGetAll key: Index().GetAll(key, ...) on the
+     index in use (offsets in index order; none = ErrNotFound) *)
+  Inductive roop :=
+  | RHas (key : bytes) | RGet (key : bytes) | RGetSize (key : bytes) | RKeys | RRoots | RClose
+  | RPut (key data : bytes) | RPutMany (blks : list (bytes * bytes)) | RDelete (key : bytes)
+  | RHashOnRead (enabled : bool) | RIndexGetAll (key : bytes).
+  Inductive roans := AOut (o : out) | AKeys (k : keys_out) | AReadOnly | AOffs (offs : list N).
 
   Definition ss_has (ss : rosess) (key : bytes) : out :=
     match cid_parse key with
@@ -363,6 +369,13 @@ Section Oracle.
     | RKeys => (ss, AKeys (if ss_closed ss then KOpenErr EClosed else ro_keys (ss_st ss)))
     | RRoots => (ss, AOut (if ss_closed ss && ss_mmap ss then OErr EOther else ro_roots (ss_st ss)))
     | RClose => (mkss (ss_st ss) true (ss_mmap ss), AOut ONil)
+    | RPut _ _ | RPutMany _ | RDelete _ => (ss, AReadOnly)
+    | RHashOnRead _ => (ss, AOut ONil)
+    | RIndexGetAll k =>
+        (ss, match cid_parse k with
+             | Some kp => AOffs (ridx_getall (s_idx (ss_st ss)) kp)
+             | None => AOut (OErr EOther)
+             end)
     end.
 
   Fixpoint ss_run (ss : rosess) (ops : list roop) : list roans :=
@@ -450,3 +463,20 @@ Definition index_wid (o : qopts) (ct : container) (sup : option qopts) : bool :=
   | Some og => q_storeid og
   | None => match ct with CV2 _ _ _ _ (Some (_, wid)) => wid | _ => q_storeid o end
   end.
+
+(* decidable forms of the two content conditions of the random-access read-back theorems (proofs:
+   ReadOnlyReaders.consistentb_sound / id_consistentb_sound): sections with equal multihash carry equal
+   bytes; identity sections carry their digest.  Both hold of hash-consistent blocks; the harness evaluates
+   them on every case's stored blocks. *)
+Definition consistentb (bs : list block) : bool :=
+  forallb (fun b1 => forallb (fun b2 =>
+    match cid_parse (fst b1), cid_parse (fst b2) with
+    | Some p1, Some p2 =>
+        negb ((c_mhcode p1 =? c_mhcode p2) && bytes_eqb (c_digest p1) (c_digest p2)) || bytes_eqb (snd b1) (snd b2)
+    | _, _ => true
+    end) bs) bs.
+Definition id_consistentb (bs : list block) : bool :=
+  forallb (fun b => match cid_parse (fst b) with
+                    | Some p => negb (is_identity p) || bytes_eqb (snd b) (c_digest p)
+                    | None => true
+                    end) bs.
